@@ -96,8 +96,43 @@ def check_text(text, acc, parse_expression, perr, expected=None, kind='chain'):
         acc.violation('rejected-wellformed', f'{text!r}: {real.error} col {real.column_number}; reference tree {json.dumps(ref)[:300]}', {'text': text})
     elif real_ok and not ref_ok:
         acc.violation('accepted-illformed', f'{text!r}: real tree {json.dumps(real)[:300]}; reference: {ref}', {'text': text})
+    if kind in ('random', 'soup') and '\n' not in text and '\r' not in text and text.strip() and len(text) % 3 == 0:
+        statement_contexts(text, ref, ref_ok, acc)
     if len(acc.samples) < 3 and kind != 'chain' and ref_ok and real_ok and nops(text) >= 3:
         acc.sample({'text': text, 'tree': real})
+
+
+def statement_contexts(text, ref, ref_ok, acc):
+    """The same expression text inside every statement form that carries an expression: accepted exactly when the expression is
+    well formed (no silent cut to a well-formed prefix, no line end invented inside it), and the model holds the same tree."""
+    from bare_script.parser import BareScriptParserError, parse_script
+
+    def find_tree(model):
+        st = model['statements'][0]
+        return st['expr']['expr'] if 'expr' in st else st['return'].get('expr')
+    forms = [('assign', 'xx = {}', True), ('return', 'return {}', True), ('if', 'if {}:\nendif', False), ('while', 'while {}:\nendwhile', False),
+             ('for', 'for vv in {}:\nendfor', False), ('elif', 'if cc:\nelif {}:\nendif', False), ('jumpif', 'lbl:\njumpif ({}) lbl', False)]
+    if text.lstrip()[:1] in ('=', ':') and not text.lstrip().startswith('=='):
+        return  # `return = 2` is an assignment to the variable "return", `return :` a label: other statements, not this expression
+    for name, tmpl, tree in forms:
+        src = tmpl.replace('{}', text)
+        try:
+            model = parse_script(src)
+            ok = True
+        except BareScriptParserError:
+            ok = False
+        except RecursionError:
+            return
+        except Exception as exc:  # pylint: disable=broad-except
+            acc.violation('non-parser-exception', f'{type(exc).__name__}: {exc} for {src!r}', {'text': text, 'context': name})
+            return
+        acc.count('statement_context_parses')
+        if ok != ref_ok:
+            acc.violation('accepted-illformed' if ok else 'rejected-wellformed', f'{name} statement {src!r}: {"accepted" if ok else "rejected"}, the expression {text!r} is {"well" if ref_ok else "ill"}-formed', {'text': text, 'context': name})
+            return
+        if ok and tree and find_tree(model) != ref:
+            acc.violation('tree-differs', f'{name} statement {src!r}: {json.dumps(find_tree(model))[:300]} vs {json.dumps(ref)[:300]}', {'text': text, 'context': name})
+            return
 
 
 def chain_texts(ops):
@@ -160,7 +195,7 @@ def rand_tree(rnd, depth, budget):
                          'args': [rand_tree(rnd, depth - 1, budget) for _ in range(rnd.randint(0, 3))]}}
 
 
-_WS = ['', ' ', '  ', '\t', ' \t ']
+_WS = ['', ' ', '  ', '\t', ' \t ', '\x0c', ' \x0b']  # (form feed and vertical tab are blanks inside an expression, never line ends)
 
 
 def print_ws(e, rnd, p=0):
